@@ -41,6 +41,64 @@ def crate_features(repo, crate):
     return sorted(set(names)), feats
 
 
+def cfg_feature_sets(repo, crate):
+    """feature sets that occur together inside one `cfg(..)` / `cfg_attr(..)` predicate of the crate's sources:
+    the places where two features interact in the code, i.e. where a combination can fail that each feature alone
+    does not (read from the source on every run)"""
+    import glob, re
+    sets = set()
+    for fn in glob.glob(os.path.join(repo, crate, "src", "**", "*.rs"), recursive=True):
+        try:
+            src = open(fn, encoding="utf-8", errors="replace").read()
+        except OSError:
+            continue
+        for m in re.finditer(r"cfg(?:_attr)?\s*\(", src):
+            i, d = m.end(), 1
+            while i < len(src) and d > 0:
+                d += src[i] == "("
+                d -= src[i] == ")"
+                i += 1
+            fs = frozenset(re.findall(r'feature\s*=\s*"([^"]+)"', src[m.end():i - 1]))
+            if 2 <= len(fs) <= 4:
+                sets.add(fs)
+    return sorted(sets, key=sorted)
+
+
+def interaction_configs(repo, crate, names, feats, cfg):
+    """every consistent on/off assignment of the features of each multi-feature cfg predicate (closed under the
+    crate's own feature implications; zbus always gets exactly the backend the assignment implies)"""
+    import itertools
+    out, seen = [], set()
+
+    def closure(fs):
+        fs = set(fs)
+        changed = True
+        while changed:
+            changed = False
+            for f_ in list(fs):
+                for v in feats.get(f_, []):
+                    if v in feats and v not in fs:
+                        fs.add(v)
+                        changed = True
+        return fs
+    for S in cfg_feature_sets(repo, crate):
+        S = [x for x in S if x in names]
+        for r in range(0, len(S) + 1):
+            for sub in itertools.combinations(sorted(S), r):
+                fs = closure(sub)
+                if crate == "zbus" and not (fs & set(ZBUS_BACKENDS)):
+                    fs = closure(fs | {"async-io"})
+                # an assignment must not switch on a member of S it was meant to leave off (implied features)
+                if any(x in fs and x not in sub and x in S for x in S) and not (crate == "zbus" and set(fs) - set(sub) <= {"async-io"} | set(feats.get("async-io", []))):
+                    continue
+                key = frozenset(fs)
+                if key in seen:
+                    continue
+                seen.add(key)
+                out.append(cfg(sorted(sub if crate != "zbus" else (set(sub) | (set() if set(sub) & set(ZBUS_BACKENDS) or "tokio-vsock" in sub else {"async-io"})))))
+    return out
+
+
 def workspace_members(repo):
     d = tomllib.load(open(os.path.join(repo, "Cargo.toml"), "rb"))
     return d["workspace"]["members"]
@@ -63,8 +121,10 @@ def configs_for(repo, crate, tier):
 
     if tier == "quick":
         # the every-change matrix (kept small: it is run on every change): the features that gate code paths
-        # (gvariant, option-as-array, p2p, bus-impl) and both zbus backends. Every single feature, "all" and the
-        # powersets run in the thorough tier.
+        # (gvariant, option-as-array, p2p, bus-impl), both zbus backends, and -- read from the sources on every run --
+        # every on/off assignment of the features that occur together in one cfg predicate (where a combination can
+        # fail although each feature alone builds; added after seeded change C35b: `vsock` + `tokio`).
+        # Every single feature, "all" and the powersets run in the thorough tier.
         if crate == "zbus":
             out.append(cfg([], default=True))
             out.append(cfg(["tokio"]))
@@ -80,6 +140,11 @@ def configs_for(repo, crate, tier):
             out.append(cfg(names))
         else:
             out.append(cfg([]))
+        have = {lab for lab, _ in out}
+        for c in interaction_configs(repo, crate, names, feats, cfg):
+            if c[0] not in have:
+                have.add(c[0])
+                out.append(c)
         return out
     if crate == "zbus":
         others = [n for n in names if n not in ZBUS_BACKENDS and n != "async-fs"]
